@@ -276,6 +276,36 @@ func c17Run(raw json.RawMessage) harn.Result {
 		if got.ret != ref.ret || strings.ReplaceAll(got.attrs, c.Op, num) != ref.attrs || got.rest != ref.rest {
 			viol("C17:operand-value-not-used-like-a-number", fmt.Sprintf("program %q: value %s vars %s rest %q; with the operand written as the number %s: value %s vars %s rest %q", c.Src, got.ret, got.attrs, got.rest, num, ref.ret, ref.attrs, ref.rest))
 		}
+		// the process text read for the first time AFTER the handler's objects were overwritten must still show the values used
+		{
+			vmA, vmB := newVM(), newVM()
+			var retA []*ds.VMValue
+			for _, pair := range []struct {
+				vm   *ds.Context
+				keep *[]*ds.VMValue
+			}{{vmA, &retA}, {vmB, nil}} {
+				keep := pair.keep
+				_ = pair.vm.RegCustomDice(`E(\d+)`, func(ctx *ds.Context, groups []string, payload any) (*ds.VMValue, string, error) {
+					n, _ := strconv.Atoi(groups[1])
+					v := ds.NewIntVal(ds.IntType(n))
+					if keep != nil {
+						*keep = append(*keep, v)
+					}
+					return v, "", nil
+				})
+			}
+			if strings.HasPrefix(c.Op, "E") {
+				errA, errB := vmA.Run(c.Src), vmB.Run(c.Src)
+				for _, v := range retA {
+					v.Value = ds.IntType(-777)
+				}
+				if errA == nil && errB == nil {
+					if a, b := vmA.GetDetailText(), vmB.GetDetailText(); a != b {
+						viol("C17:returned-value-aliased", fmt.Sprintf("program %q: after the handler overwrote the object it had returned, the process text reads %q instead of %q", c.Src, a, b))
+					}
+				}
+			}
+		}
 		if after != got.ret {
 			viol("C17:returned-value-aliased", fmt.Sprintf("program %q: mutating the value a handler returned changed the result from %s to %s", c.Src, got.ret, after))
 		}
